@@ -17,6 +17,7 @@ import (
 	"strconv"
 	"strings"
 	"sync"
+	"sync/atomic"
 	"time"
 )
 
@@ -39,9 +40,16 @@ func init() { register("C12", runC12) }
 //         D<u>                      DELETE /api/v1/webhook?url=
 //         N<o0><o1><o2><o3>         WebhooksService.Notify(event) with the outcome of the call to url i:
 //                                   k=200 c=201 n=404 s=503 t=transport error b=unreadable body (status 200)
+//                                   0..6 = status 200, A..G = status 503, the body BREAKS (read error / connection closed)
+//                                   after 0, 1, 254, 255, 256, 1000, 4096 bytes of a longer announced body: any read error
+//                                   is a failed delivery whatever was read before.  Non-200 replies carry a body of 302 bytes.
 //         X<0..3>                   a request the endpoint must reject (4xx) without touching anything: POST without url,
 //                                   POST with an unparsable body, GET without url, DELETE without url
 //         Z                         restart (Stack.Reopen: close the SQLite file, rebuild repositories + services)
+// EVERY wait has a deadline and ends as an observable, never as a hang: an op (with its GETs) that does not finish
+//   within c12OpDeadline is reported as "NOTIFY-BLOCKED|<POSTs so far>|<GETs>" / "OP-TIMEOUT <op>||<GETs>" and the rest of
+//   the case is "SKIPPED||"; so is the rest after two ops slower than c12SlowOp ("SKIPPED slow||").  After
+//   c12MaxCutCases such cases the run stops generating (they are failures already).  Cases are flushed as they are written.
 // observable: for every op  "<response>|<POSTs, sorted>|<GET u0>,<GET u1>,<GET u2>,<GET u3>", joined by " ; ",
 //   followed by " ; DB " + the raw webhooks table in rowid order.
 //   view of a webhook:  e<errorsCount>a<0|1>s<lastEmitStatus>t<lastEmitTimestamp>  or "404"
@@ -159,10 +167,47 @@ func (w *c12World) idOf(u string) int {
 	return -1
 }
 
-type c12ErrReader struct{}
+const (
+	c12OpDeadline  = 6500 * time.Millisecond // > SQLite's 5 s busy timeout: a write that fails "database is locked" still completes
+	c12SlowOp      = 3 * time.Second
+	c12AuxDeadline = 3 * time.Second
+	c12MaxCutCases = 3
+)
 
-func (c12ErrReader) Read([]byte) (int, error) { return 0, errors.New("scripted body error") }
-func (c12ErrReader) Close() error             { return nil }
+// the body of every non-200 reply: 302 bytes (canonical name "no")
+var c12NoBody = "no" + strings.Repeat(".", 300)
+
+var c12BreakPos = []int{0, 1, 254, 255, 256, 1000, 4096}
+
+// c12Break: outcome characters 0..6 (status 200) and A..G (status 503): the body breaks after pos bytes.
+func c12Break(o byte) (code int, pos int, ok bool) {
+	switch {
+	case o >= '0' && o <= '6':
+		return 200, c12BreakPos[o-'0'], true
+	case o >= 'A' && o <= 'G':
+		return 503, c12BreakPos[o-'A'], true
+	}
+	return 0, 0, false
+}
+
+// c12ErrReader yields n bytes and then fails.
+type c12ErrReader struct{ n int }
+
+func (r *c12ErrReader) Read(p []byte) (int, error) {
+	if r.n <= 0 {
+		return 0, errors.New("scripted body error")
+	}
+	k := len(p)
+	if k > r.n {
+		k = r.n
+	}
+	for i := 0; i < k; i++ {
+		p[i] = 'x'
+	}
+	r.n -= k
+	return k, nil
+}
+func (r *c12ErrReader) Close() error { return nil }
 
 // Call implements notification.WebhookTargetClient (scripted client).
 func (w *c12World) Call(headers map[string]string, method string, u string, body any) (*http.Response, error) {
@@ -194,15 +239,18 @@ func (w *c12World) Call(headers map[string]string, method string, u string, body
 	case 'k':
 		return mk(200, "ok"), nil
 	case 'c':
-		return mk(201, "no"), nil
+		return mk(201, c12NoBody), nil
 	case 'n':
-		return mk(404, "no"), nil
+		return mk(404, c12NoBody), nil
 	case 's':
-		return mk(503, "no"), nil
+		return mk(503, c12NoBody), nil
 	case 't':
 		return nil, errors.New("scripted transport error")
 	case 'b':
-		return &http.Response{StatusCode: 200, Status: "200", Body: c12ErrReader{}, Header: http.Header{}}, nil
+		return &http.Response{StatusCode: 200, Status: "200", Body: &c12ErrReader{n: 2}, Header: http.Header{}}, nil
+	}
+	if code, pos, ok := c12Break(o); ok {
+		return &http.Response{StatusCode: code, Status: strconv.Itoa(code), Body: &c12ErrReader{n: pos}, Header: http.Header{}}, nil
 	}
 	return nil, errors.New("scripted transport error")
 }
@@ -259,17 +307,21 @@ func (w *c12World) ServeHTTP(rw http.ResponseWriter, r *http.Request) {
 		_, _ = rw.Write([]byte("ok"))
 	case 'c':
 		rw.WriteHeader(201)
-		_, _ = rw.Write([]byte("no"))
+		_, _ = rw.Write([]byte(c12NoBody))
 	case 'n':
 		rw.WriteHeader(404)
-		_, _ = rw.Write([]byte("no"))
+		_, _ = rw.Write([]byte(c12NoBody))
 	case 's':
 		rw.WriteHeader(503)
-		_, _ = rw.Write([]byte("no"))
+		_, _ = rw.Write([]byte(c12NoBody))
 	case 't':
 		kill("")
 	case 'b':
 		kill("HTTP/1.1 200 OK\r\nContent-Type: text/plain\r\nContent-Length: 100\r\n\r\nxx")
+	default:
+		if code, pos, ok := c12Break(o); ok {
+			kill(fmt.Sprintf("HTTP/1.1 %d X\r\nContent-Type: text/plain\r\nContent-Length: %d\r\n\r\n%s", code, pos+500, strings.Repeat("x", pos)))
+		}
 	}
 }
 
@@ -307,6 +359,9 @@ func c12Status(s string) string {
 	}
 	if i := strings.IndexByte(s, ' '); i > 0 {
 		if _, err := strconv.Atoi(s[:i]); err == nil {
+			if s[i+1:] == c12NoBody {
+				return s[:i] + ":no"
+			}
 			return s[:i] + ":" + c12Esc(s[i+1:])
 		}
 	}
@@ -424,7 +479,6 @@ func c12Exec(c *Ctx, input string, seq int) (obs string) {
 	if mode == "p" {
 		w.srv = httptest.NewServer(w)
 		base = w.srv.URL
-		defer w.srv.Close()
 	}
 	w.urls, _ = c12URLs(up, mode, base)
 	for i := range w.urls {
@@ -445,126 +499,99 @@ func c12Exec(c *Ctx, input string, seq int) (obs string) {
 	if mode == "s" {
 		opts.WebhookClnt = w
 	}
-	s, err := NewStack(opts)
-	if err != nil {
-		return "STACK-ERROR " + c12Esc(err.Error())
+	var s *Stack
+	if v, ok := c12Guard(2*c12OpDeadline, func() any {
+		st, err := NewStack(opts)
+		if err != nil {
+			return err
+		}
+		return st
+	}, func(v any) {
+		if st, ok := v.(*Stack); ok {
+			st.Close()
+		}
+	}); !ok {
+		return "STACK-BLOCKED"
+	} else if e, isErr := v.(error); isErr {
+		return "STACK-ERROR " + c12Esc(e.Error())
+	} else if p, isPanic := v.(c12Panic); isPanic {
+		return "STACK-PANIC " + c12Esc(string(p))
+	} else {
+		s = v.(*Stack)
 	}
 	r := &c12Run{w: w, s: s}
 	defer func() {
-		if r.s != nil {
-			r.s.Close()
+		if st := r.s; st != nil {
+			c12Guard(c12AuxDeadline, func() any { st.Close(); return nil }, nil)
+		}
+		if w.srv != nil {
+			srv := w.srv
+			c12Guard(c12AuxDeadline, func() any { srv.CloseClientConnections(); srv.Close(); return nil }, nil)
 		}
 		_ = os.RemoveAll(filepath.Join(c.Out, "tmp", fmt.Sprintf("c12-%d", seq)))
 	}()
+	// getsGuarded: the GETs of every url by a fresh goroutine with its own deadline (used when the op itself is stuck)
+	getsGuarded := func() string {
+		snap := &c12Run{w: w, s: r.s, wins: append([]c12Win(nil), r.wins...)}
+		if v, ok := c12Guard(c12AuxDeadline, func() any { return snap.gets() }, nil); ok {
+			if g, isStr := v.(string); isStr {
+				return g
+			}
+			return "GETS-PANIC"
+		}
+		return "GETS-BLOCKED"
+	}
 	var steps []string
 	prevA, prevE := [c12NU]int{-1, -1, -1, -1}, [c12NU]int{}
+	slow, cut := 0, ""
 	for i, op := range toks[1:] {
 		idx := i + 1
-		step := func() (res string) {
-			defer func() {
-				if p := recover(); p != nil {
-					res = "PANIC|" + "|"
-				}
-			}()
-			resp, posts := "-", ""
-			switch {
-			case strings.HasPrefix(op, "R"):
-				f := strings.Split(op[1:], ":")
-				if len(f) != 4 {
-					return "BAD-OP||"
-				}
-				u, e1 := strconv.Atoi(f[0])
-				if e1 != nil || u < 0 || u >= c12NU {
-					return "BAD-OP||"
-				}
-				req := map[string]any{"url": w.urlOf(u)}
-				switch f[1] {
-				case "b":
-					req["requiredAuth"] = map[string]string{"type": "bearer", "token": "tok" + f[3]}
-				case "B":
-					req["requiredAuth"] = map[string]string{"type": "BeArEr", "token": "tok" + f[3], "header": "X-H" + f[2]}
-				case "c":
-					req["requiredAuth"] = map[string]string{"type": "custom_header", "token": "tok" + f[3], "header": "X-H" + f[2]}
-				case "n":
-				default:
-					return "BAD-OP||"
-				}
-				bj, _ := json.Marshal(req)
-				code, body := r.s.Do("POST", "/api/v1/webhook", string(bj), nil)
-				if code == 200 {
-					resp = "200:" + r.view(code, body, w.urlOf(u))
-				} else {
-					resp = r.view(code, body, "")
-				}
-			case strings.HasPrefix(op, "D"):
-				u, e1 := strconv.Atoi(op[1:])
-				if e1 != nil || u < 0 || u >= c12NU {
-					return "BAD-OP||"
-				}
-				code, body := r.s.Do("DELETE", "/api/v1/webhook?url="+url.QueryEscape(w.urlOf(u)), "", nil)
-				if code == 200 {
-					resp = "200"
-				} else {
-					resp = r.view(code, body, "")
-				}
-			case strings.HasPrefix(op, "N"):
-				if len(op) != 1+c12NU {
-					return "BAD-OP||"
-				}
-				w.mu.Lock()
-				copy(w.outcomes[:], op[1:])
-				w.event = map[string]any{"operation": "ADD", "seq": idx}
-				w.eventJS, _ = json.Marshal(w.event)
-				w.posts = nil
-				w.mu.Unlock()
-				win := c12Win{idx: idx, from: time.Now()}
-				r.s.Services.Webhooks.Notify(w.event)
-				win.to = time.Now()
-				r.wins = append(r.wins, win)
-				w.mu.Lock()
-				var ps []string
-				for _, p := range w.posts {
-					ps = append(ps, p.String())
-				}
-				w.mu.Unlock()
-				sort.Strings(ps) // the order of the calls is not part of the property
-				posts = strings.Join(ps, ",")
-			case len(op) == 2 && op[0] == 'X':
-				var code int
-				switch op[1] {
-				case '0': // no url in the body
-					code, _ = r.s.Do("POST", "/api/v1/webhook", `{"requiredAuth":{"type":"bearer","token":"tok9"}}`, nil)
-				case '1': // unparsable body
-					code, _ = r.s.Do("POST", "/api/v1/webhook", `{"url": "`+w.urlOf(0), nil)
-				case '2': // query without url
-					code, _ = r.s.Do("GET", "/api/v1/webhook", "", nil)
-				case '3': // delete without url
-					code, _ = r.s.Do("DELETE", "/api/v1/webhook", "", nil)
-				default:
-					return "BAD-OP||"
-				}
-				if code >= 400 && code < 500 {
-					resp = "rej"
-				} else {
-					resp = fmt.Sprintf("%d:unexpected", code)
-				}
-			case op == "Z":
-				s2, err := r.s.Reopen()
-				if err != nil {
-					r.s = nil
-					return "REOPEN-ERROR||"
-				}
-				r.s = s2
-			default:
-				return "BAD-OP||"
-			}
-			return resp + "|" + posts + "|" + r.gets()
+		if cut != "" {
+			steps = append(steps, cut+"||")
+			continue
 		}
 		if r.s == nil {
 			steps = append(steps, "DEAD||")
 			continue
 		}
-		st := step()
+		// the op works on a private snapshot of the run state; the state is adopted only when the op came back in time
+		snap := &c12Run{w: w, s: r.s, wins: append([]c12Win(nil), r.wins...)}
+		origS := r.s
+		t0 := time.Now()
+		v, ok := c12Guard(c12OpDeadline, func() any { return c12Step(snap, op, idx) }, func(any) {
+			if snap.s != nil && snap.s != origS { // a restart that came back after it was given up
+				snap.s.Close()
+			}
+		})
+		var st string
+		switch {
+		case !ok && strings.HasPrefix(op, "N"):
+			w.mu.Lock()
+			var ps []string
+			for _, p := range w.posts {
+				ps = append(ps, p.String())
+			}
+			w.mu.Unlock()
+			sort.Strings(ps)
+			r.wins = append(r.wins, c12Win{idx: idx, from: t0, to: time.Now()})
+			st = "NOTIFY-BLOCKED|" + strings.Join(ps, ",") + "|" + getsGuarded()
+			cut = "SKIPPED"
+		case !ok:
+			st = "OP-TIMEOUT " + c12Esc(op) + "||" + getsGuarded()
+			cut = "SKIPPED"
+		default:
+			if pv, isPanic := v.(c12Panic); isPanic {
+				st = "PANIC " + c12Esc(string(pv)) + "||"
+			} else {
+				st = v.(string)
+			}
+			r.s, r.wins = snap.s, snap.wins
+			if time.Since(t0) > c12SlowOp {
+				if slow++; slow >= 2 {
+					cut = "SKIPPED slow"
+				}
+			}
+		}
 		steps = append(steps, st)
 		// input-distribution histogram: which transitions the sequence really exercised
 		if parts := strings.Split(st, "|"); len(parts) == 3 {
@@ -594,16 +621,160 @@ func c12Exec(c *Ctx, input string, seq int) (obs string) {
 	}
 	db := "DEAD"
 	if r.s != nil {
-		db = r.dumpDB()
+		snap := &c12Run{w: w, s: r.s, wins: append([]c12Win(nil), r.wins...)}
+		if v, ok := c12Guard(c12AuxDeadline, func() any { return snap.dumpDB() }, nil); !ok {
+			db = "BLOCKED"
+		} else if d, isStr := v.(string); isStr {
+			db = d
+		} else {
+			db = "PANIC"
+		}
+	}
+	if cut != "" {
+		c12CutCases++
 	}
 	steps = append(steps, "DB "+db)
 	return strings.Join(steps, " ; ")
+}
+
+// c12CutCases counts the cases of this run that were cut short by a blocked or slow op.
+var c12CutCases int
+
+type c12Panic string
+
+// c12Guard runs f with a deadline.  When f does not come back in time the caller goes on (ok = false) and the goroutine
+// is left behind; if it ever returns, late (when given) disposes of what it produced.  A panic in f is returned as c12Panic.
+func c12Guard(d time.Duration, f func() any, late func(any)) (v any, ok bool) {
+	ch := make(chan any, 1)
+	var abandoned atomic.Bool
+	go func() {
+		var out any
+		defer func() {
+			if p := recover(); p != nil {
+				out = c12Panic(fmt.Sprint(p))
+			}
+			ch <- out
+			if abandoned.Load() && late != nil {
+				late(out)
+			}
+		}()
+		out = f()
+	}()
+	t := time.NewTimer(d)
+	defer t.Stop()
+	select {
+	case v = <-ch:
+		return v, true
+	case <-t.C:
+		abandoned.Store(true)
+		return nil, false
+	}
+}
+
+// c12Step performs one op (and the GETs after it) on the snapshot r; a restart replaces r.s, an event appends to r.wins.
+func c12Step(r *c12Run, op string, idx int) (res string) {
+	w := r.w
+	resp, posts := "-", ""
+	switch {
+	case strings.HasPrefix(op, "R"):
+		f := strings.Split(op[1:], ":")
+		if len(f) != 4 {
+			return "BAD-OP||"
+		}
+		u, e1 := strconv.Atoi(f[0])
+		if e1 != nil || u < 0 || u >= c12NU {
+			return "BAD-OP||"
+		}
+		req := map[string]any{"url": w.urlOf(u)}
+		switch f[1] {
+		case "b":
+			req["requiredAuth"] = map[string]string{"type": "bearer", "token": "tok" + f[3]}
+		case "B":
+			req["requiredAuth"] = map[string]string{"type": "BeArEr", "token": "tok" + f[3], "header": "X-H" + f[2]}
+		case "c":
+			req["requiredAuth"] = map[string]string{"type": "custom_header", "token": "tok" + f[3], "header": "X-H" + f[2]}
+		case "n":
+		default:
+			return "BAD-OP||"
+		}
+		bj, _ := json.Marshal(req)
+		code, body := r.s.Do("POST", "/api/v1/webhook", string(bj), nil)
+		if code == 200 {
+			resp = "200:" + r.view(code, body, w.urlOf(u))
+		} else {
+			resp = r.view(code, body, "")
+		}
+	case strings.HasPrefix(op, "D"):
+		u, e1 := strconv.Atoi(op[1:])
+		if e1 != nil || u < 0 || u >= c12NU {
+			return "BAD-OP||"
+		}
+		code, body := r.s.Do("DELETE", "/api/v1/webhook?url="+url.QueryEscape(w.urlOf(u)), "", nil)
+		if code == 200 {
+			resp = "200"
+		} else {
+			resp = r.view(code, body, "")
+		}
+	case strings.HasPrefix(op, "N"):
+		if len(op) != 1+c12NU {
+			return "BAD-OP||"
+		}
+		w.mu.Lock()
+		copy(w.outcomes[:], op[1:])
+		w.event = map[string]any{"operation": "ADD", "seq": idx}
+		w.eventJS, _ = json.Marshal(w.event)
+		w.posts = nil
+		ev := w.event
+		w.mu.Unlock()
+		win := c12Win{idx: idx, from: time.Now()}
+		r.s.Services.Webhooks.Notify(ev)
+		win.to = time.Now()
+		r.wins = append(r.wins, win)
+		w.mu.Lock()
+		var ps []string
+		for _, p := range w.posts {
+			ps = append(ps, p.String())
+		}
+		w.mu.Unlock()
+		sort.Strings(ps) // the order of the calls is not part of the property
+		posts = strings.Join(ps, ",")
+	case len(op) == 2 && op[0] == 'X':
+		var code int
+		switch op[1] {
+		case '0': // no url in the body
+			code, _ = r.s.Do("POST", "/api/v1/webhook", `{"requiredAuth":{"type":"bearer","token":"tok9"}}`, nil)
+		case '1': // unparsable body
+			code, _ = r.s.Do("POST", "/api/v1/webhook", `{"url": "`+w.urlOf(0), nil)
+		case '2': // query without url
+			code, _ = r.s.Do("GET", "/api/v1/webhook", "", nil)
+		case '3': // delete without url
+			code, _ = r.s.Do("DELETE", "/api/v1/webhook", "", nil)
+		default:
+			return "BAD-OP||"
+		}
+		if code >= 400 && code < 500 {
+			resp = "rej"
+		} else {
+			resp = fmt.Sprintf("%d:unexpected", code)
+		}
+	case op == "Z":
+		s2, err := r.s.Reopen()
+		if err != nil {
+			r.s = nil
+			return "REOPEN-ERROR||"
+		}
+		r.s = s2
+	default:
+		return "BAD-OP||"
+	}
+	return resp + "|" + posts + "|" + r.gets()
 }
 
 func c12GenOps(c *Ctx, n int, mt int) []string {
 	rng := c.Rng
 	var ops []string
 	outs := "kkkkkcnsstttb"
+	breaks := "0123456ABCDEFG"
 	// a "profile" biases the outcomes so that long failure streaks (reaching max_tries 4,5) do occur
 	failBias := rng.Intn(3) // 0: mostly ok, 1: mixed, 2: mostly failing
 	for len(ops) < n {
@@ -639,6 +810,9 @@ func c12GenOps(c *Ctx, n int, mt int) []string {
 						o = 'k'
 					}
 				}
+				if o != 'k' && rng.Intn(5) == 0 {
+					o = breaks[rng.Intn(len(breaks))]
+				}
 				b = append(b, o)
 			}
 			ops = append(ops, string(b))
@@ -657,8 +831,14 @@ func runC12(c *Ctx) error {
 		}
 		seen[input] = true
 		seq++
+		if c12CutCases >= c12MaxCutCases && class != "only" {
+			c.Count("not-run:after-" + strconv.Itoa(c12MaxCutCases) + "-blocked-cases")
+			return
+		}
 		obs := c12Exec(c, input, seq)
 		c.Case(input, obs)
+		_ = c.cases.Flush()
+		_ = c.impl.Flush()
 		c.Count(class)
 		toks := strings.Split(input, ";")
 		c.Count("head:" + strings.ReplaceAll(toks[0], " ", ","))
@@ -710,6 +890,18 @@ func runC12(c *Ctx) error {
 				}
 			}
 		}
+	}
+	// systematic: the body breaks after 0,1,254,255,256,1000,4096 bytes, status 200 and 503, both clients: every one is a
+	// failed delivery: count 1, reset by a 200, then two in a row deactivate (max_tries 2)
+	for _, mode := range []string{"p", "s"} {
+		for _, x := range "0123456ABCDEFG" {
+			do(fmt.Sprintf("mt=2 mode=%s;R0:b:0:1;R1:c:1:2;N%ckkk;Nkkkk;N%c%ckk;N%ckkk;Nkkkk;Z", mode, x, x, x, x), "systematic-bodybreak")
+		}
+	}
+	// systematic: many non-200 replies WITH a body to one host (all urls of a case live on one host), then 200s and more events
+	for _, mode := range []string{"p", "s"} {
+		do(fmt.Sprintf("mt=5 mode=%s;R0:b:0:1;R1:c:1:2;R2:n:0:0;R3:b:0:3;Nssss;Nnncc;Nkkkk;Nscns;Nkkkk;Nkkkk;Z;Nnnnn;Nkkkk", mode), "systematic-non200-bodies")
+		do(fmt.Sprintf("mt=5 mode=%s;R0:b:0:1;Nskkk;Nnkkk;Nckkk;Nskkk;Nkkkk;Nkkkk;Nskkk;Nkkkk", mode), "systematic-non200-bodies")
 	}
 	// systematic: every url profile x both clients: the four urls side by side (they are four different webhooks),
 	// events, delete / query / re-register by exactly the string that was registered
